@@ -746,12 +746,12 @@ Section QSys.
     rewrite Hts in Hf, Hp. eapply SQ_task; eauto.
   Qed.
 
-  Lemma step_q : forall top prot preds fuel s e, SQ s -> SQ (step defs mode top prot preds fuel s e).
+  Lemma step_q : forall top prot preds guard fuel s e, SQ s -> SQ (step defs mode top prot preds guard fuel s e).
   Proof.
-    intros top prot preds fuel s e HS. unfold step.
+    intros top prot preds guard fuel s e HS. unfold step.
     destruct (s_oof s); [exact HS|].
     destruct HS as [Hf [lb H]].
-    destruct (can_start top preds s e).
+    destruct (can_start top preds guard s e).
     - apply deliver_all_q.
       set (t0 := mkT e _ _ [] None _).
       set (h0 := match inherited_ctx preds s e with Some _ => s_sh s | None => _ end).
@@ -773,9 +773,9 @@ Section QSys.
       rewrite Hts in Hf, H. eapply SQ_task; eauto.
   Qed.
 
-  Lemma schedule_q : forall top prot preds fuel sched s, SQ s -> SQ (run_schedule defs mode top prot preds fuel s sched).
+  Lemma schedule_q : forall top prot preds guard fuel sched s, SQ s -> SQ (run_schedule defs mode top prot preds guard fuel s sched).
   Proof.
-    intros top prot preds fuel sched. unfold run_schedule.
+    intros top prot preds guard fuel sched. unfold run_schedule.
     induction sched as [|e r IH]; intros s H; simpl; [exact H|]. apply IH. apply step_q. exact H.
   Qed.
 
@@ -796,24 +796,24 @@ Section QSys.
     intros k q Hq. apply init_queues_empty in Hq. subst q. repeat split; constructor.
   Qed.
 
-  Lemma all_schedules_serial : forall top prot preds fuel inits sched,
-    serial_log defs mode (h_log (s_sh (run_schedule defs mode top prot preds fuel (init_state mode inits) sched))).
+  Lemma all_schedules_serial : forall top prot preds guard fuel inits sched,
+    serial_log defs mode (h_log (s_sh (run_schedule defs mode top prot preds guard fuel (init_state mode inits) sched))).
   Proof.
-    intros. destruct (schedule_q top prot preds fuel sched _ (init_q inits)) as [_ [lb [[op [Hs _]] _]]].
+    intros. destruct (schedule_q top prot preds guard fuel sched _ (init_q inits)) as [_ [lb [[op [Hs _]] _]]].
     unfold serial_log. rewrite Hs. discriminate.
   Qed.
 
   (* while a body of its queue is in progress, an arriving trigger runs nothing: it is appended and returns True
      (or, for the queue of a removed model, raises KeyError) *)
-  Lemma all_schedules_busy : forall top prot preds fuel inits sched e op lb,
-    let s := run_schedule defs mode top prot preds fuel (init_state mode inits) sched in
+  Lemma all_schedules_busy : forall top prot preds guard fuel inits sched e op lb,
+    let s := run_schedule defs mode top prot preds guard fuel (init_state mode inits) sched in
     AsyncConc.gscan defs mode gstate0 (h_log (s_sh s)) = Some (op, lb) -> In (ekey e) (map fst op) ->
     (exists h', call_trigger defs mode e (s_sh s) = CalledRet (RBool true) h' /\
                 h_log h' = h_log (s_sh s) /\ h_mstate h' = h_mstate (s_sh s) /\ h_reg h' = h_reg (s_sh s)) \/
     call_trigger defs mode e (s_sh s) = CalledExn X_KEY (s_sh s).
   Proof.
-    intros top prot preds fuel inits sched e op lb s Hs Hin.
-    destruct (schedule_q top prot preds fuel sched _ (init_q inits)) as [_ [lb' [[op' [Hs' Hop]] [_ [_ [_ I3]]]]]].
+    intros top prot preds guard fuel inits sched e op lb s Hs Hin.
+    destruct (schedule_q top prot preds guard fuel sched _ (init_q inits)) as [_ [lb' [[op' [Hs' Hop]] [_ [_ [_ I3]]]]]].
     fold s in Hs', I3, Hop. rewrite Hs in Hs'. inversion Hs'; subst op' lb'.
     rewrite (call_trigger_queued defs mode Hmode).
     destruct (qlookup (h_queues (s_sh s)) (ekey e)) as [[|x q]|] eqn:Hq.
@@ -825,41 +825,41 @@ Section QSys.
 End QSys.
 
 (* ------------------------------------------------------------------ packaged statements for Props/C08.v *)
-Lemma shared_serial_fifo : forall defs top prot preds fuel inits sched l1 n e l2 n' e' l3,
-  h_log (s_sh (run_schedule defs QShared top prot preds fuel (init_state QShared inits) sched)) =
+Lemma shared_serial_fifo : forall defs top prot preds guard fuel inits sched l1 n e l2 n' e' l3,
+  h_log (s_sh (run_schedule defs QShared top prot preds guard fuel (init_state QShared inits) sched)) =
     l1 ++ GBegin n e :: l2 ++ GBegin n' e' :: l3 ->
   (exists e2 r, In (GEnd n e2 r) l2) /\ n < n'.
 Proof.
-  intros defs top prot preds fuel inits sched l1 n e l2 n' e' l3 Hl.
+  intros defs top prot preds guard fuel inits sched l1 n e l2 n' e' l3 Hl.
   assert (Hm : QShared <> QNone) by discriminate.
-  pose proof (all_schedules_serial defs QShared Hm top prot preds fuel inits sched) as Hs. rewrite Hl in Hs.
+  pose proof (all_schedules_serial defs QShared Hm top prot preds guard fuel inits sched) as Hs. rewrite Hl in Hs.
   split.
   - destruct (scan_no_overlap defs QShared _ _ _ _ _ _ _ Hs eq_refl) as [e2 [r [H1 _]]]. exists e2, r. exact H1.
   - apply (scan_fifo defs QShared _ _ _ _ _ _ _ Hs eq_refl).
 Qed.
 
-Lemma model_serial_fifo : forall defs top prot preds fuel inits sched l1 n e l2 n' e' l3,
-  h_log (s_sh (run_schedule defs QPerModel top prot preds fuel (init_state QPerModel inits) sched)) =
+Lemma model_serial_fifo : forall defs top prot preds guard fuel inits sched l1 n e l2 n' e' l3,
+  h_log (s_sh (run_schedule defs QPerModel top prot preds guard fuel (init_state QPerModel inits) sched)) =
     l1 ++ GBegin n e :: l2 ++ GBegin n' e' :: l3 ->
   e_model (edef defs e) = e_model (edef defs e') ->
   (exists e2 r, In (GEnd n e2 r) l2 /\ e_model (edef defs e2) = e_model (edef defs e)) /\ n < n'.
 Proof.
-  intros defs top prot preds fuel inits sched l1 n e l2 n' e' l3 Hl Hk.
+  intros defs top prot preds guard fuel inits sched l1 n e l2 n' e' l3 Hl Hk.
   assert (Hm : QPerModel <> QNone) by discriminate.
-  pose proof (all_schedules_serial defs QPerModel Hm top prot preds fuel inits sched) as Hs. rewrite Hl in Hs.
+  pose proof (all_schedules_serial defs QPerModel Hm top prot preds guard fuel inits sched) as Hs. rewrite Hl in Hs.
   split.
   - apply (scan_no_overlap defs QPerModel _ _ _ _ _ _ _ Hs Hk).
   - apply (scan_fifo defs QPerModel _ _ _ _ _ _ _ Hs Hk).
 Qed.
 
-Lemma items_inside_body : forall defs mode top prot preds fuel inits sched l1 it l2,
+Lemma items_inside_body : forall defs mode top prot preds guard fuel inits sched l1 it l2,
   mode <> QNone ->
-  h_log (s_sh (run_schedule defs mode top prot preds fuel (init_state mode inits) sched)) = l1 ++ it :: l2 ->
+  h_log (s_sh (run_schedule defs mode top prot preds guard fuel (init_state mode inits) sched)) = l1 ++ it :: l2 ->
   (forall n e, it <> GBegin n e) ->
   exists la e lc, l1 = la ++ GBegin (item_no it) e :: lc /\
                   (forall e' r, In (GEnd (item_no it) e' r) lc -> ekey defs mode e' <> ekey defs mode e).
 Proof.
-  intros defs mode top prot preds fuel inits sched l1 it l2 Hm Hl Hnb.
-  pose proof (all_schedules_serial defs mode Hm top prot preds fuel inits sched) as Hs. rewrite Hl in Hs.
+  intros defs mode top prot preds guard fuel inits sched l1 it l2 Hm Hl Hnb.
+  pose proof (all_schedules_serial defs mode Hm top prot preds guard fuel inits sched) as Hs. rewrite Hl in Hs.
   apply (scan_inside defs mode _ _ _ Hs Hnb).
 Qed.
